@@ -38,12 +38,18 @@ def alphaCutArr (g : List Rat) (P : PB) (lv : List Rat) : Except Err (List Ivl) 
   let cs ← lv.mapM (cutRaw g P)
   if cs.all (fun c => decide (c.1 ≤ c.2)) then pure cs else .error .Assertion
 
+/-- `np.searchsorted(arr, x, side="right")` on a non-decreasing array: how many bounds are `≤ x` -/
+def countLE : List Rat → Rat → Nat
+  | [], _ => 0
+  | a :: r, x => if a ≤ x then countLE r x + 1 else 0
+
+/-- `np.clip(searchsorted(arr, x, "right") - 1, 0, last)` : the last step whose bound is `≤ x` -/
+def stepOf (last : Nat) (arr : List Rat) (x : Rat) : Nat := min (countLE arr x - 1) last
+
 /-- lower / upper cumulative probability at `x`, before the Interval check -/
 def cdfRaw (g : List Rat) (P : PB) (x : Rat) : Except Err Ivl := do
-  let i ← nearestE P.right x
-  let j ← nearestE P.left x
-  let lo ← getE g i
-  let hi ← getE g j
+  let lo ← getE g (stepOf (g.length - 1) P.right x)
+  let hi ← getE g (stepOf (g.length - 1) P.left x)
   pure (lo, hi)
 
 /-- `cdf(x)` -/
